@@ -79,6 +79,9 @@ class Gen:
         self.pool = []
         self.sources = sources if sources is not None else []   # list of (ndarray, chunks)
         self.ops = ops
+        # non-pointwise block functions (reverse, plus_blocksum) are exercised by the corpus only: slicing
+        # through them is known finding F2 and would drown every other signal
+        self.mb_funcs = ["double", "info"]
 
     # ---- leaves
     def leaf(self):
@@ -108,7 +111,11 @@ class Gen:
                            "diff", "reshape", "astype", "map_overlap", "boolmask_reduce"]
         for _ in range(12):
             op = rng.choice(ops)
-            out = self._try(op, p, v)
+            try:
+                with np.errstate(all="ignore"):
+                    out = self._try(op, p, v)
+            except (TypeError, ValueError, IndexError):
+                out = None      # not a valid NumPy program: skip
             if out is not None:
                 return out
         return p, v
@@ -238,7 +245,7 @@ class Gen:
             if f == "prod":
                 v = np.clip(v, -2, 2)
                 p = ("elem", "clip", p, ("const", -2), ("const", 2))
-            keepdims = rng.random() < 0.3
+            keepdims = rng.random() < 0.3 and f != "count_nonzero"
             se = rng.choice([None, None, 2, 3, 4])
             if se is not None and rng.random() < 0.3 and axes is not None:
                 se = {a: rng.choice([2, 3]) for a in axes}
@@ -259,7 +266,7 @@ class Gen:
             if nd == 0 or v.dtype.kind not in "iu":
                 return None
             # value of a non-pointwise block function depends on the chunking: pin it with an explicit rechunk
-            name = rng.choice(list(MB_FUNCS))
+            name = rng.choice(self.mb_funcs)
             ch = tuple(rand_chunks_for(rng, n) for n in v.shape)
             return ("map_blocks", name, ("rechunk", p, ch), ch), mb_numpy(name, v, ch)
         if op == "broadcast_to":
@@ -335,7 +342,7 @@ class Gen:
             ax = rng.randrange(nd)
             depth = rng.randint(1, 2)
             boundary = rng.choice(["reflect", "periodic", "nearest", 0])
-            if boundary in ("reflect", "periodic") and v.shape[ax] < depth + 1:
+            if v.shape[ax] < depth + 1:
                 return None
             return ("map_overlap", p, depth, ax, boundary), overlap_numpy(v, depth, ax, boundary)
         if op == "boolmask_reduce":
@@ -449,7 +456,7 @@ def build(prog, da, sources, memo=None, hooks=None):
         if f in ("argmax", "argmin"):
             out = getattr(da, f)(x, axis=axis, split_every=se)
         elif f == "count_nonzero":
-            out = da.count_nonzero(x, axis=axis, keepdims=keepdims, split_every=se) if False else da.count_nonzero(x, axis=axis, keepdims=keepdims)
+            out = da.count_nonzero(x, axis=axis)
         else:
             out = getattr(da, f)(x, axis=axis, keepdims=keepdims, split_every=se)
     elif t == "cum":
